@@ -439,6 +439,42 @@ fn main() {
         rec.end_case(c.class, nontrivial);
     }
 
+    // ---- shape fin-scripted: the kernel-evaluated witnesses of Props/C08.lean (`sampleHistory`,
+    // `genesis_report_depends_on_order`, `unsafe_history_not_exact`) on the real tracker; mutators are called
+    // below the watermark as well (release semantics: ignored)
+    let scripted_fin: Vec<(&str, Vec<FOp>)> = vec![
+        (
+            "sample",
+            vec![
+                FOp::Final(3), FOp::Notar((1, 1)), FOp::Notar((3, 3)), FOp::Parent((3, 3), (1, 1)), FOp::Notar((2, 9)),
+                FOp::Final(1), FOp::Parent((1, 1), (0, 0)), FOp::FastFinal((3, 3)), FOp::Parent((2, 9), (1, 1)),
+                FOp::FastFinal((4, 4)), FOp::Parent((4, 4), (3, 3)), FOp::Notar((1, 1)),
+            ],
+        ),
+        ("genesis-first", vec![FOp::Parent((1, 1), (0, 0)), FOp::FastFinal((1, 1))]),
+        ("genesis-late", vec![FOp::FastFinal((1, 1)), FOp::Parent((1, 1), (0, 0))]),
+        ("unsafe", vec![FOp::FastFinal((1, 1)), FOp::FastFinal((2, 2)), FOp::Parent((3, 3), (1, 1)), FOp::FastFinal((3, 3))]),
+    ];
+    for (name, ops) in &scripted_fin {
+        rec.begin_case("fin-scripted");
+        let mut c = FinCase::new();
+        for op in ops {
+            c.apply(&mut rec, op, true);
+        }
+        let rep: Vec<B> = c.cum_fin.iter().chain(c.cum_ifin.iter()).copied().collect();
+        let ok = !c.dead
+            && match *name {
+                "sample" => c.cum_fin == vec![(3, 3), (4, 4)] && c.cum_ifin == vec![(1, 1)] && c.cum_iskip == vec![2] && c.last_fu == 4,
+                "genesis-first" => rep == vec![(1, 1), (0, 0)],
+                "genesis-late" => rep == vec![(1, 1)],
+                _ => rep == vec![(1, 1), (2, 2), (3, 3)] && c.cum_iskip.is_empty(),
+            };
+        rec.oracle(ok, "fin-witness-differs", || {
+            format!("scripted case {name}: the real tracker does not behave like the Lean witness: dead={} finalized={:?} implicitly={:?} skipped={:?} watermark={}", c.dead, c.cum_fin, c.cum_ifin, c.cum_iskip, c.last_fu)
+        });
+        rec.end_case(c.class, true);
+    }
+
     // ---- shape pool-world: worlds delivered to a real PoolImpl as certificates and blocks
     let rt = tokio::runtime::Builder::new_current_thread().build().expect("runtime");
     let mut factory = CertFactory::new();
